@@ -416,6 +416,11 @@ def buffer0d_fails(case):
             accumulate(total, x[i] * x[i])
         if case['alloc'] == 'ones':
             scale(total, x[0])
+        if case.get('copy'):
+            # a private copy of the 0-d work array, updated by a helper as well (ndarray.copy() / UTPM.copy() of a 0-d array is a 0-d array)
+            acc = total.copy()
+            accumulate(acc, x[1])
+            return acc * 1.0 + total
         return total * 1.0
     mk = lambda a, kind: UTPM(np.array(a).copy()) if kind == 'utpm' else np.array(a)[0, 0].copy()
     rec = case['rec']
@@ -586,7 +591,8 @@ def run(ctx):
             ctx.report(case, 'failure', f)
     for alloc in ('zeros', 'ones'):
         for rec_kind in ('ndarray', 'utpm'):
-            case = {'op': 'buffer0d', 'alloc': alloc, 'rec_kind': rec_kind, 'rec': rand_coeffs(rng, (3, 2, 3), -2, 2),
+            case = {'op': 'buffer0d', 'alloc': alloc, 'rec_kind': rec_kind, 'copy': alloc == 'zeros' and rec_kind == 'utpm' or alloc == 'ones' and rec_kind == 'ndarray',
+                    'rec': rand_coeffs(rng, (3, 2, 3), -2, 2),
                     'pts': [['ndarray', rand_coeffs(rng, (1, 1, 3), -2, 2)], ['utpm', rand_coeffs(rng, (3, 2, 3), -2, 2)], ['utpm', rand_coeffs(rng, (2, 1, 3), -2, 2)],
                             ['ndarray', rand_coeffs(rng, (1, 1, 3), -2, 2)]]}
             ctx.evaluations += 1
